@@ -1,0 +1,44 @@
+//go:build verif
+
+package field
+
+// Contracts for the deductive verifier in /verif (vcgo). Comment-only.
+//
+// Field lists are immutable values (Set returns a new list). The packed representation is read through unsafe
+// pointers, outside the verifier's subset, so the list is specified as an abstract map name -> value and these
+// contracts are ASSUMED (listed as such in every evidence file that uses them).
+
+//@ abstract field.List map[string]ref
+//@ abstract field.Field ref
+//@ abstract field.Value ref
+//@ ghost func fldName(f ref) string
+//@ ghost func fldVal(f ref) ref
+//@ ghost func valEq(a ref, b ref) bool
+//@ ghost func valOf(data string) ref
+
+//@ func Field.Name
+//@   assumed
+//@   modifies nothing
+//@   ensures result == fldName(f)
+//@ func Field.Value
+//@   assumed
+//@   modifies nothing
+//@   ensures result == fldVal(f)
+//@ func Value.Equals
+//@   assumed
+//@   modifies nothing
+//@   ensures result == valEq(v, b)
+//@ func Make
+//@   assumed
+//@   modifies nothing
+//@   ensures fldName(result) == name && fldVal(result) == valOf(data)
+//@ func List.Get
+//@   assumed
+//@   recv-value
+//@   modifies nothing
+//@   ensures fldName(result) == name && fldVal(result) == fields[name]
+//@ func List.Set
+//@   assumed
+//@   recv-value
+//@   modifies nothing
+//@   ensures result == store(fields, fldName(field), fldVal(field))
